@@ -38,6 +38,8 @@ THEOREMS = [
     "PyTrie.Props.NonVacuity6.read_v2_error_eval",
     "PyTrie.Props.NonVacuity6.read6_v5_ok",
     "PyTrie.Props.NonVacuity6.read6_v2_error",
+    "PyTrie.Props.C09.raw_step_refines",
+    "PyTrie.Props.C09.raw_cache_invariant",
 ]
 RULE = ("walks over tries built by generated histories: at every step an unexplored prefix is taken with nearest_unknown or "
         "nearest_right for a (changing) query key, traversed from the root or from a TrieFrontierCache entry (stale entries "
